@@ -675,6 +675,10 @@ func (c *VirtualTable) Update(ctx context.Context, key interface{}, values map[i
 		colName := c.ColumnNameByIndex[i]
 		new.ColumnValues[colName] = ToColumnValue(v)
 	}
+	// An UPDATE does not change whether the row exists: keep the time of
+	// the INSERT or DELETE that decided that, so that a DELETE made
+	// elsewhere between that time and this UPDATE still wins.
+	new.DeleteUpdateOffset = durationpb.New(DeleteUpdateTime(ot, old.DeleteUpdateOffset).Sub(t))
 	outTime := laterOf(ot, t)
 	merged := MergeRows(key, ot, old, t, &new, outTime)
 	err = c.Tree.Root.Set(ctx, outTime, NewKey(key), merged)
